@@ -23,7 +23,7 @@ pub mod cln_rpc {
         pub fn call_typed<R: TypedRequest>(&mut self, request: &R, Tracked(t): Tracked<&mut Trace<R, R::Response>>) -> (r: ::std::result::Result<R::Response, RpcError>)
             requires
                 !old(t).called,             // #one_request_per_call [C17,C05,C16,C08]
-                !old(t).shared_lock_held,   // #no_lock_shared_between_callers_across_a_request [C14]
+                !old(t).shared_lock_held,   // #no_lock_shared_between_callers_across_a_request [C14,C06]
             ensures *final(t) == (Trace { called: true, last: Some(r), sent: Some(*request), ..*old(t) }),
         { unimplemented!() }
     }
